@@ -211,7 +211,12 @@ pub fn run_one(env: &Env, index: u64, stats: &mut Stats) -> (Vec<Found>, u64, u6
         }
         "C20" => {
             let (sc, c) = gen_screened(seed, &env.corpus, Bias::Sink, stats);
-            let la = props::check_c20a(&c, &env.preamble);
+            // generated projects use nothing from the standard library: --no-std must change nothing for them
+            let std_free = sc.family == "generated-project" && sc.faults.is_empty();
+            let la = props::check_c20a(&c, &env.preamble, std_free);
+            if std_free {
+                stats.inc("probe.std_free_program_compared_with_and_without_no_std");
+            }
             record_common(stats, &sc, &c, &la.main);
             maybe_sample(stats, index, seed, &sc, &c, &la.main);
             if matches!(la.main.result, ResultObs::Err(_)) {
@@ -229,7 +234,7 @@ pub fn run_one(env: &Env, index: u64, stats: &mut Stats) -> (Vec<Found>, u64, u6
             let found = la
                 .violations
                 .into_iter()
-                .map(|v| Found { violation: v, concrete: c.clone(), scenario: Some(sc.clone()), extra: J::obj(), outcome_events: la.main.events_json(8) })
+                .map(|v| Found { violation: v, concrete: c.clone(), scenario: Some(sc.clone()), extra: J::obj().set("std_free", J::Bool(std_free)), outcome_events: la.main.events_json(8) })
                 .collect();
             (found, c.fnv(), la.main.history_fnv())
         }
@@ -250,7 +255,7 @@ pub fn reproduces(prop: &str, c: &Concrete, extra: &J, preamble: &str, id: &str)
                 .unwrap_or_else(|| vec![1, 2]);
             props::check_c16(c, &seeds).0
         }
-        "C20" => props::check_c20a(c, preamble).violations,
+        "C20" => props::check_c20a(c, preamble, extra.bool_of("std_free")).violations,
         "C12" => crate::c12::reevaluate(c, extra),
         _ => Vec::new(),
     };
